@@ -256,6 +256,12 @@ Section External.
       else (f, ErrNoParent)
     end.
 
+  (* initRun consults the value of the --config flag and config.NewDefaultKoanf (built-in
+     defaults) only; the process environment - MOCKERY_DIR, MOCKERY_TEMPLATE, ..., MOCKERY_CONFIG
+     included (they are read by NewRootConfig for a normal run) - is not an input. *)
+  Definition init_in (env : list (str * str)) (f : fs) (config_flag pkg : str) : fs * outcome :=
+    init f config_flag pkg.
+
   (* several init runs on the same target, in the order in which their exclusive creates take
      effect (open(2) with O_CREAT|O_EXCL is atomic, so concurrent runs behave like one of their
      sequential orders) *)
